@@ -145,7 +145,8 @@ def same_claim_view(old: View, new: View, path) -> tm.T:
                   tm.Eq(new.creator(path), old.creator(path)))
 
 
-def frame_view(old: View, new: View, changed_path=None, changed_step=None, trees_changed=False, globs_changed=False):
+def frame_view(old: View, new: View, changed_path=None, changed_step=None, trees_changed=False, globs_changed=False,
+               claims_changed=False):
     """Everything in the view is unchanged, except the claim on `changed_path`, the step label `changed_step`."""
     fs = []
 
@@ -154,9 +155,10 @@ def frame_view(old: View, new: View, changed_path=None, changed_step=None, trees
                       tm.Eq(new.creator(v), old.creator(v)))
         return same if changed_path is None else tm.Implies(tm.Ne(v, sym.S(changed_path)), same)
 
-    fs.append(_forall_str("p", claims, new.claimed))
-    fs.append(_forall_str("p", claims, new.role))
-    fs.append(_forall_str("p", claims, new.creator))
+    if not claims_changed:
+        fs.append(_forall_str("p", claims, new.claimed))
+        fs.append(_forall_str("p", claims, new.role))
+        fs.append(_forall_str("p", claims, new.creator))
 
     def steps(v):
         same = tm.Iff(new.step_exists(v), old.step_exists(v))
@@ -201,6 +203,10 @@ class trellis_create:
             facts.append(tm.Implies(tm.Not(att), same_claim_view(old, new, label)))
             facts.append(frame_view(old, new, changed_path=label))
             facts.append(tm.Eq(sym.S(result.label), sym.S(label)))  # callers pass normalised paths (File.adjust_label)
+        elif cls is File and creator is None:
+            # a node created without creator is detached: it claims nothing, and the node it may re-use was detached
+            facts.append(frame_view(old, new))
+            facts.append(tm.Eq(sym.S(result.label), sym.S(label)))
         elif cls is Step:
             facts.append(frame_view(old, new, changed_step=result.label))
         return sym.wrap_bool(tm.And(*facts))
